@@ -82,6 +82,19 @@ FIXED_PROGRAMS = [
 ]
 
 
+# a non-empty match whose replacement is empty because the template consists only of references to
+# groups that did not take part in the match or matched the empty string: the match is deleted, and
+# everything after it has to be attributed as after a deletion
+LATE_FIXED_PROGRAMS = [
+    [{"t": "rule", "pat": "c(a)?", "ng": 1, "tmpl": "\\1"}],
+    [{"t": "rule", "pat": "b(a*)", "ng": 1, "tmpl": "\\1"}],
+    [{"t": "rule", "pat": "(a)?c(b)?", "ng": 2, "tmpl": "\\1\\2"}],
+    [{"t": "rule", "pat": " (c)?", "ng": 1, "tmpl": "\\1"}, {"t": "rule", "pat": "a", "ng": 0, "tmpl": "bb"}],
+    [{"t": "iter", "items": [{"t": "rule", "pat": "c(a)?", "ng": 1, "tmpl": "\\1"}]},
+     {"t": "rule", "pat": "b", "ng": 0, "tmpl": "a a"}],
+]
+
+
 class _Diverges(Exception):
     pass
 
@@ -121,6 +134,8 @@ def gen_cases(rng, tier):
     nprog = 30 if tier == "quick" else 150
     for _ in range(nprog):
         progs.append(_rand_items(rng, 0, []))
+    # appended after the random programs so that their choices stay what they were
+    progs.extend(LATE_FIXED_PROGRAMS)
     maxlen = 3 if tier == "quick" else 4
     strings = ["".join(t) for n in range(0, maxlen + 1) for t in itertools.product(ALPHA, repeat=n)]
     extra = ["I won't go", "x ac y z", "xb ab", "aaaa", "a b  c", "abcabc ab", "  a  ", "won't won't",
